@@ -491,7 +491,20 @@ def distribute_batch_calls(
             common_args, task.conf.disable_cache_args
         )
         task.logger.debug(f"Pre-serialized {len(pre_serialized_args)} common arguments")
-        other_args = param_list  # type: ignore
+        # Bind every call to the task signature (defaults included), exactly as the
+        # non-batch path does, so that a call gets the same arguments and call_id
+        # whichever way it is written. Only what the common arguments do not already
+        # provide is kept per call.
+        other_args = []
+        for params in param_list:
+            bound = task.args(**{**common_args, **params}).kwargs  # type: ignore
+            other_args.append(
+                {
+                    k: v
+                    for k, v in bound.items()
+                    if k in params or k not in common_args  # type: ignore
+                }
+            )
     else:
         other_args = [a.kwargs for a in prepare_arguments(task, param_list)]
 
